@@ -545,3 +545,15 @@ package keeper
 //@ property C01 := (*keeper).AccountCreate#*, (*keeper).AccountDeposit#*, (*keeper).paymentWithdraw#*, (*keeper).accountWithdraw#*,
 //@                 (*keeper).saveAccount#*, (*keeper).savePayment#*, lemma:totalFullIsProduct, lemma:sumRateFrame,
 //@                 accountSettleFullblocks#*, accountSettleDistributeWeighted#*, accountSettleDistributeEvenly#*
+
+// C06: accounts never share payment-key ranges.  Escrow account ids produced by the protocol have a
+// '/'-free scope and an XID of '/'-free components (owner/dseq for deployments); for two ids of the same
+// shape, one account's payment prefix covers another account's payment key only if the ids are equal.
+//@ lemma escrowSeparation(a: types.AccountID, b: types.AccountID, oa: str, da: str, ob: str, db: str, q: str)
+//@   theory strings
+//@   requires a.XID == oa + "/" + da && b.XID == ob + "/" + db
+//@   requires !strContains(a.Scope, "/") && !strContains(b.Scope, "/") && !strContains(oa, "/") && !strContains(da, "/") && !strContains(ob, "/") && !strContains(db, "/")
+//@   requires hasPrefix(pKey(b, q), apKey(a))
+//@   ensures a == b
+//@ property C06 := accountKey#*, paymentKey#*, accountPaymentsKey#*, lemma:keyKindAccount, lemma:keyKindPayment, lemma:payPrefix, lemma:pKeyInjPid,
+//@                 lemma:escrowSeparation
